@@ -632,14 +632,19 @@ class MessageManager(ClientLike):
         self,
         header: MessageHeader,
         payload: Union[bytes, MessageData],
+        exclude: typing.Optional[Module] = None,
     ):
         """Forward message to registered logger modules
 
         Args:
             header (MessageHeader): Message header to send
             payload (Union[bytes, MessageData]): Message data to send
+            exclude (Optional[Module]): Logger module that already has the message
         """
         for module in list(self.logger_modules):
+            if module is exclude:
+                continue
+
             # Skip loggers removed while handling a failure earlier in this loop
             if module.conn not in self.modules:
                 continue
@@ -705,8 +710,8 @@ class MessageManager(ClientLike):
             print("x", end="", flush=True)
             self.send_failed_message(src_module, header, time.perf_counter())
 
-        # Always forward to logger modules
-        self.send_to_loggers(header, b"")
+        # Always forward to logger modules (the requester already has its copy)
+        self.send_to_loggers(header, b"", exclude=src_module)
 
     def send_failed_message(
         self,
